@@ -1064,7 +1064,7 @@ impl Probe {
         let mut incoming: Vec<_> = msg
             .authorities()
             .iter()
-            .filter(|r| r.get_name() == probe_name)
+            .filter(|r| r.get_name().eq_ignore_ascii_case(probe_name))
             .collect();
         // The other host may list its records in any order: sort them as ours are.
         incoming.sort_by(|a, b| a.compare(b.as_ref()));
@@ -1153,6 +1153,17 @@ impl DnsRegistry {
             new_timers: Vec::new(),
             name_changes: HashMap::new(),
         }
+    }
+
+    /// Returns the name being probed that equals `name` ignoring ASCII letter case, in our spelling.
+    pub(crate) fn probing_name(&self, name: &str) -> Option<String> {
+        if self.probing.contains_key(name) {
+            return Some(name.to_string());
+        }
+        self.probing
+            .keys()
+            .find(|k| k.eq_ignore_ascii_case(name))
+            .cloned()
     }
 
     /// Returns the renamed name if a name change exists, otherwise returns the original name.
